@@ -50,7 +50,34 @@ fn dispatch(cmd: &str, args: &[&str]) -> String {
         "BKD" => bkd::bkd(args),
         "BKDR" => bkd::bkdr(args),
         "BKDC" => bkd::bkdc(args),
+        "BKDN" => bkd::bkdn(args),
         "RUN" => rt::run(args),
+        // `RUNBIG <n>`: readies from the addresses 1..n, then creates / reports / a restart / a close on the addresses 1 and n with
+        // the SAME flow id; the answer is the callback part of the trace
+        "RUNBIG" => {
+            let n: u32 = match args.first().and_then(|s| s.parse().ok()) {
+                Some(n) if n >= 2 && n <= 200_000 => n,
+                _ => return "BADARG".into(),
+            };
+            let mut toks: Vec<String> = "ALG - 1 PROGS - NF - OR - SCRIPT".split(' ').map(String::from).collect();
+            for a in 1..=n {
+                toks.push(format!("{}:RD.1", a));
+            }
+            for t in ["1:CR.1.10.1460.1.2.3.4.-".to_string(), format!("{}:CR.1.10.1460.1.2.3.4.-", n), "1:MS.1.5.7;8".to_string(),
+                      format!("{}:MS.1.5.9;10", n), format!("{}:RD.1", n), "1:MS.1.5.11".to_string(), format!("{}:MS.1.5.12", n), "1:MS.1.5.-".to_string()] {
+                toks.push(t);
+            }
+            let refs: Vec<&str> = toks.iter().map(|s| s.as_str()).collect();
+            let r = rt::run(&refs);
+            r.split(" | ")
+                .filter_map(|p| match p.split(' ').next() {
+                    Some("NF") | Some("RP") | Some("CL") | Some("DR") => Some(p.to_string()),
+                    Some("RES") => Some(p.split(' ').take(2).collect::<Vec<_>>().join(" ")),
+                    _ => None,
+                })
+                .collect::<Vec<_>>()
+                .join(" | ")
+        }
         "RUNPAIR" => rt::runpair(args),
         "RUNRAW" => {
             // like RUN, with every transmitted message also shown in full (in send order)
